@@ -4,6 +4,7 @@ From Verif Require Import Common.Base Common.Tactics Common.Lx Css.Model Css.Bas
 From Verif Require Import CssParse.Model CssParse.Hash Gen.Tables.
 From Coq Require Import ZifyBool.
 
+
 (* --- what the parser needs to know about one lexer step -------------------------------------------------- *)
 Lemma consume_at_keyword_lb l n : consume_at_keyword l = Some n -> n = 0 \/ 2 <= n.
 Proof.
@@ -205,14 +206,14 @@ Proof. unfold same_ctl. repeat split; auto; lia. Qed.
 Lemma outcome_pre T p p2 g p' : same_ctl p p2 -> outcomeT T p2 g p' -> outcomeT T p g p'.
 Proof.
   intros (Hst & Hpe & Hsty & Her & Hlb & Hb & Hpos) ((Hi & Hb' & Hpos' & Hsty') & Hpe' & Herr' & Hc).
-  split; [split; [exact Hi|split; [congruence|split; [lia|congruence]]]|].
-  split; [intros H; destruct (Hpe' H) as [H'|H']; [left; congruence|right; lia]|].
+  split; [split; [exact Hi|split; [congruence|split; [clear - Hpos Hpos'; lia|congruence]]]|].
+  split; [intros H; destruct (Hpe' H) as [H'|H']; [left; congruence|right; clear - H' Hpos; lia]|].
   split; [destruct Herr' as [?|?]; [left; congruence|right; assumption]|].
   destruct Hc as [(Hs & Hg & He)|[(Hg & He & s & Hs & Hk & Hl)|[(Hg & He & Hs & Hl)|[(Hg & He & s & Hs & Hk)|[(Hg & He & Hs)|(Hg & He & s & Hs & Hn)]]]]].
   - left. split; [congruence|]. split; [exact Hg|]. exact He.
-  - right; left. split; [exact Hg|]. split; [congruence|]. exists s. repeat split; try assumption; [congruence|lia].
+  - right; left. split; [exact Hg|]. split; [congruence|]. exists s. repeat split; try assumption; [congruence|clear - Hl Hpos; lia].
   - right; right; left. split; [exact Hg|]. split; [congruence|]. split; [congruence|].
-    destruct Hl as [Hl|Hl]; [left; lia|]. destruct (Hlb Hl) as [?|?]; [right; assumption|left; lia].
+    destruct Hl as [Hl|Hl]; [left; clear - Hl Hpos; lia|]. destruct (Hlb Hl) as [?|Hx]; [right; assumption|left; clear - Hx Hpos'; lia].
   - right; right; right; left. split; [exact Hg|]. split; [congruence|]. exists s. split; [congruence|exact Hk].
   - right; right; right; right; left. repeat split; try assumption; congruence.
   - right; right; right; right; right. split; [exact Hg|]. split; [exact He|]. exists s. split; [congruence|exact Hn].
@@ -313,11 +314,35 @@ Proof.
     cbn [set_err pst]. split; [|exact Hn]. rewrite <- Hs. subst q. cbn [push_buf set_buf pst]. congruence.
 Qed.
 
+(* lia after dropping the boolean facts about token types / flags (zify would try to digest them: minutes) *)
+Ltac blia :=
+  repeat match goal with
+  | H : is_t _ _ = _ |- _ => clear H
+  | H : ends_unit _ _ = _ |- _ => clear H
+  | H : andb _ _ = _ |- _ => clear H
+  | H : orb _ _ = _ |- _ => clear H
+  | H : negb _ = _ |- _ => clear H
+  | H : prevend _ = _ |- _ => clear H
+  | H : perr _ = _ |- _ => clear H
+  | H : isstyle _ = _ |- _ => clear H
+  | H : keepws _ = _ |- _ => clear H
+  | H : stack_ok _ = _ |- _ => clear H
+  | H : at_kind _ = _ |- _ => clear H
+  | H : pushed_kind _ = _ |- _ => clear H
+  | H : bottom_kind _ = _ |- _ => clear H
+  | H : tok_fact _ _ _ |- _ => clear H
+  | H : tokd _ _ |- _ => clear H
+  | H : _ -> _ |- _ => clear H
+  | H : pop_token _ _ _ = _ |- _ => clear H
+  | H : ctl _ = ctl _ |- _ => clear H
+  | H : _ \/ _ |- _ => clear H
+  end; lia.
+
 Lemma at_rule_loop_spec : forall fuel F p h first skipws, linv p -> rem p < Z.of_nat fuel -> rem p < Z.of_nat F ->
   exists g p', at_rule_loop fuel F p h first skipws = POk (g, p') /\ outcomeS p g p'.
 Proof.
   induction fuel as [|fuel IH]; intros F p h first skipws Hi Hfu HF.
-  { pose proof (rem_nonneg p Hi). lia. }
+  { pose proof (rem_nonneg p Hi). blia. }
   cbn [at_rule_loop]. pop_tok false Hpop Hi HF. rewrite Hpop. cbn [pbind fst snd].
   set (p1 := relex p z ws cm) in *.
   destruct (ctl_same p z ws cm p1 eq_refl Hb Hp) as (Hsc1 & Hpl1).
@@ -349,16 +374,16 @@ Proof.
   destruct (ctl_same p z ws cm p2 Hc2 Hb Hp) as (Hsc2 & Hpl2).
   assert (Hi2 : linv p2) by (unfold linv; rewrite Hpl2; exact Hz).
   assert (Hr2 : rem p2 < rem p).
-  { unfold rem. rewrite Hpl2. rewrite (lx_len_eq _ _ Hb). specialize (Hlt Hne). lia. }
-  destruct (IH F p2 h false sk2 Hi2 ltac:(lia) ltac:(lia)) as (g & p' & Hl & Ho).
+  { unfold rem. rewrite Hpl2. rewrite (lx_len_eq _ _ Hb). specialize (Hlt Hne). blia. }
+  destruct (IH F p2 h false sk2 Hi2 ltac:(blia) ltac:(blia)) as (g & p' & Hl & Ho).
   exists g, p'. split; [exact Hl|]. eapply outcome_pre; eassumption.
 Qed.
 
 Lemma index_byte_range l b i : index_byte l b = Some i -> 0 <= i < len l.
 Proof.
   revert i. induction l as [|c t IH]; intros i H; cbn [index_byte] in H; [discriminate|].
-  rewrite len_cons. destruct (c =? b); [some_inv H; pose proof (len_nonneg t); lia|].
-  destruct (index_byte t b) as [j|]; [|discriminate]. some_inv H. specialize (IH j eq_refl). lia.
+  rewrite len_cons. destruct (c =? b); [some_inv H; pose proof (len_nonneg t); blia|].
+  destruct (index_byte t b) as [j|]; [|discriminate]. some_inv H. specialize (IH j eq_refl). blia.
 Qed.
 
 Lemma len_to_lower b : len (to_lower b) = len b.
@@ -369,21 +394,21 @@ Lemma parse_at_rule_spec F p : linv p -> rem p < Z.of_nat F -> 2 <= len (pdata p
 Proof.
   intros Hi HF Hd. unfold parse_at_rule.
   set (name0 := to_lower (pdata (set_buf p []))). assert (Hl0 : len name0 = len (pdata p)) by apply len_to_lower.
-  replace (0 <? len name0) with true by lia.
-  destruct (peekz_in_range name0 1) as (c1 & Hc1); [lia|]. rewrite Hc1. cbn [of_opt pbind].
+  replace (0 <? len name0) with true by blia.
+  destruct (peekz_in_range name0 1) as (c1 & Hc1); [blia|]. rewrite Hc1. cbn [of_opt pbind].
   assert (Hname : exists name, (if c1 =? 45 then match index_byte (skipz 2 name0) 45 with
                                                    | Some i => POk (skipz (i + 2) name0) | None => POk name0 end
                                 else POk name0) = POk name /\ 1 <= len name).
-  { destruct (c1 =? 45); [|exists name0; split; [reflexivity|lia]].
-    destruct (index_byte (skipz 2 name0) 45) as [i|] eqn:Ei; [|exists name0; split; [reflexivity|lia]].
-    apply index_byte_range in Ei. rewrite len_skipz in Ei by lia.
-    eexists; split; [reflexivity|]. rewrite len_skipz by lia. lia. }
-  destruct Hname as (name & -> & Hn). cbn [pbind]. replace (len name <? 1) with false by lia.
+  { destruct (c1 =? 45); [|exists name0; split; [reflexivity|blia]].
+    destruct (index_byte (skipz 2 name0) 45) as [i|] eqn:Ei; [|exists name0; split; [reflexivity|blia]].
+    apply index_byte_range in Ei. rewrite len_skipz in Ei by blia.
+    eexists; split; [reflexivity|]. rewrite len_skipz by blia. blia. }
+  destruct Hname as (name & -> & Hn). cbn [pbind]. replace (len name <? 1) with false by blia.
   destruct (to_hash_total (skipz 1 name)) as (h & ->). cbn [of_opt pbind].
   set (p1 := set_tok (set_buf p []) (ptt (set_buf p [])) name0).
   destruct (at_rule_loop_spec F F p1 h true false) as (g & p' & Hl & Ho); [exact Hi|exact HF|exact HF|].
   exists g, p'. split; [exact Hl|]. eapply outcome_pre; [|exact Ho].
-  unfold same_ctl. subst p1. cbn [set_tok set_buf pst prevend isstyle perr pl ptt]. repeat split; auto; lia.
+  unfold same_ctl. subst p1. cbn [set_tok set_buf pst prevend isstyle perr pl ptt]. repeat split; auto; blia.
 Qed.
 
 Lemma qualified_loop_spec : forall fuel F p (fst_it : bool) inattr skipws, linv p ->
@@ -392,7 +417,7 @@ Lemma qualified_loop_spec : forall fuel F p (fst_it : bool) inattr skipws, linv 
   exists g p', qualified_loop fuel F p fst_it inattr skipws = POk (g, p') /\ outcomeS p g p'.
 Proof.
   induction fuel as [|fuel IH]; intros F p fst_it inattr skipws Hi Hfu HF Hnlb.
-  { pose proof (rem_nonneg p Hi). destruct fst_it; lia. }
+  { pose proof (rem_nonneg p Hi). destruct fst_it; blia. }
   cbn [qualified_loop].
   assert (Htok : exists t d p1, (if fst_it then POk (ptt p, pdata p, set_tok p TWhitespace []) else pop_token F false p) = POk (t, d, p1) /\
             pst p1 = pst p /\ prevend p1 = prevend p /\ isstyle p1 = isstyle p /\ perr p1 = perr p /\
@@ -401,7 +426,7 @@ Proof.
   { destruct fst_it.
     - do 3 eexists. split; [reflexivity|]. cbn [set_tok pst prevend isstyle perr pl ptt].
       split; [reflexivity|]. split; [reflexivity|]. split; [reflexivity|]. split; [reflexivity|]. split; [reflexivity|].
-      split; [lia|]. split; [exact Hi|]. split; [discriminate|reflexivity].
+      split; [blia|]. split; [exact Hi|]. split; [discriminate|reflexivity].
     - pop_tok false Hpop Hi HF. rewrite Hpop. do 3 eexists. split; [reflexivity|]. cbn [relex pst prevend isstyle perr pl ptt].
       split; [reflexivity|]. split; [reflexivity|]. split; [reflexivity|]. split; [reflexivity|]. split; [exact Hb|].
       split; [exact Hp|]. split; [exact Hz|]. split; [apply Hnlb; reflexivity|exact Hlt]. }
@@ -434,9 +459,9 @@ Proof.
   destruct Hpl2 as (Hpl2 & Hst2 & Hpe2 & Hsty2 & Her2 & Htt2).
   assert (Hi2 : linv p2) by (unfold linv; rewrite Hpl2; exact Hi1).
   assert (Hr2 : rem p2 + 0 < Z.of_nat fuel).
-  { unfold rem in *. rewrite Hpl2. rewrite (lx_len_eq _ _ Hb). destruct fst_it; [lia|]. specialize (Hadv E2). lia. }
+  { unfold rem in *. rewrite Hpl2. rewrite (lx_len_eq _ _ Hb). destruct fst_it; [blia|]. specialize (Hadv E2). blia. }
   destruct (IH F p2 false ia2 sk2 Hi2 Hr2) as (g & p' & Hl & Ho).
-  - unfold rem in *. rewrite Hpl2. rewrite (lx_len_eq _ _ Hb). lia.
+  - unfold rem in *. rewrite Hpl2. rewrite (lx_len_eq _ _ Hb). blia.
   - intros _. congruence.
   - exists g, p'. split; [exact Hl|]. eapply outcome_pre; [|exact Ho].
     unfold same_ctl. rewrite Hpl2, Hst2, Hpe2, Hsty2, Her2, Htt2. repeat split; try assumption; try congruence.
@@ -447,9 +472,9 @@ Lemma parse_qualified_rule_spec F p : linv p -> rem p + 1 < Z.of_nat F ->
 Proof.
   intros Hi HF. unfold parse_qualified_rule.
   destruct (qualified_loop_spec F F (set_buf p []) true false true) as (g & p' & Hl & Ho);
-    [exact Hi|exact HF|unfold rem in *; cbn [set_buf pl]; lia|discriminate|].
+    [exact Hi|exact HF|unfold rem in *; cbn [set_buf pl]; blia|discriminate|].
   exists g, p'. split; [exact Hl|]. eapply outcome_pre; [|exact Ho].
-  unfold same_ctl. cbn [set_buf pst prevend isstyle perr pl ptt]. repeat split; auto; lia.
+  unfold same_ctl. cbn [set_buf pst prevend isstyle perr pl ptt]. repeat split; auto; blia.
 Qed.
 
 Lemma outcomeT_weaken (T T' : parser -> Prop) p g p' : (forall q, T q -> T' q) -> outcomeT T p g p' -> outcomeT T' p g p'.
@@ -484,15 +509,15 @@ Lemma decl_error_loop_spec : forall fuel F p t d, linv p -> (rem p < Z.of_nat fu
     (prevend p' = true -> t = TRightBrace \/ lpos (pl p) < lpos (pl p')).
 Proof.
   induction fuel as [|fuel IH]; intros F p t d Hi Hfu HF; rewrite decl_error_loop_eq.
-  - destruct Hfu as [Hfu|Hfu]; [pose proof (rem_nonneg p Hi); lia|]. subst t. rewrite ends_unit_error. cbv zeta.
+  - destruct Hfu as [Hfu|Hfu]; [pose proof (rem_nonneg p Hi); blia|]. subst t. rewrite ends_unit_error. cbv zeta.
     change (is_t TError TSemicolon) with false. cbv beta iota.
     eexists. split; [reflexivity|]. cbn [set_prevend pst perr prevend pl isstyle].
-    split; [apply (frame_of p _ (pl p)); [reflexivity|exact Hi|reflexivity|lia|reflexivity]|].
+    split; [apply (frame_of p _ (pl p)); [reflexivity|exact Hi|reflexivity|blia|reflexivity]|].
     split; [reflexivity|]. split; [reflexivity|]. discriminate.
   - destruct (ends_unit p t) eqn:E.
     + cbv zeta. eexists. split; [reflexivity|].
       assert (Hx : forall q, pl q = pl p -> isstyle q = isstyle p -> frame p q).
-      { intros q H1 H2. apply (frame_of p q (pl p)); [exact H1|exact Hi|reflexivity|lia|exact H2]. }
+      { intros q H1 H2. apply (frame_of p q (pl p)); [exact H1|exact Hi|reflexivity|blia|exact H2]. }
       destruct (is_t t TSemicolon); cbn [push_buf set_buf set_prevend pst perr prevend pl isstyle];
         (split; [apply Hx; reflexivity|]); (split; [reflexivity|]); (split; [reflexivity|]); intros H; left; apply is_t_eq; exact H.
     + assert (Hne : t <> TError) by (intros ->; rewrite ends_unit_error in E; discriminate).
@@ -507,12 +532,12 @@ Proof.
       destruct (IH F p3 t0 d0) as (p' & Hl & (Hi' & Hb' & Hp' & Hs') & Hst' & Her' & Hpe').
       * exact Hz.
       * destruct (ttype_eq_dec t0 TError) as [->|Hn0]; [right; reflexivity|left].
-        unfold rem, p3. cbn [relex pl]. rewrite (lx_len_eq _ _ Hb). rewrite Hpl2 in *. specialize (Hlt Hn0). unfold rem in Hfu. lia.
-      * unfold rem, p3. cbn [relex pl]. rewrite (lx_len_eq _ _ Hb). rewrite Hpl2 in *. unfold rem in HF. lia.
+        unfold rem, p3. cbn [relex pl]. rewrite (lx_len_eq _ _ Hb). rewrite Hpl2 in *. specialize (Hlt Hn0). unfold rem in Hfu. blia.
+      * unfold rem, p3. cbn [relex pl]. rewrite (lx_len_eq _ _ Hb). rewrite Hpl2 in *. unfold rem in HF. blia.
       * exists p'. split; [exact Hl|]. subst p3. cbn [relex pl pst perr isstyle] in *. rewrite Hpl2 in *.
-        split; [unfold frame; split; [exact Hi'|split; [congruence|split; [lia|congruence]]]|].
+        split; [unfold frame; split; [exact Hi'|split; [congruence|split; [blia|congruence]]]|].
         split; [congruence|]. split; [congruence|]. intros H. right.
-        destruct (Hpe' H) as [->|Hx]; [specialize (Hlt ltac:(discriminate)); lia|lia].
+        destruct (Hpe' H) as [->|Hx]; [specialize (Hlt ltac:(discriminate)); blia|blia].
 Qed.
 
 (* the error return of parseDeclaration *)
@@ -528,10 +553,10 @@ Proof.
   - exact HF.
   - exists GError, p'. split; [exact Hl|]. subst q. cbn [set_tok set_err pl pst perr isstyle] in *.
     apply outcome_plain.
-    + unfold frame. split; [exact Hi'|]. split; [congruence|]. split; [lia|congruence].
+    + unfold frame. split; [exact Hi'|]. split; [congruence|]. split; [blia|congruence].
     + congruence.
     + reflexivity.
-    + intros H. right. destruct (Hpe' H) as [->|Hx]; [specialize (Hadv ltac:(discriminate)); lia|lia].
+    + intros H. right. destruct (Hpe' H) as [->|Hx]; [specialize (Hadv ltac:(discriminate)); blia|blia].
     + right. exact Her'.
     + intros _. exact Her'.
 Qed.
@@ -540,18 +565,18 @@ Lemma declaration_loop_spec : forall fuel F p, linv p -> pbuf p <> [] -> rem p <
   exists g p', declaration_loop fuel F p = POk (g, p') /\ outcomeS p g p'.
 Proof.
   induction fuel as [|fuel IH]; intros F p Hi Hbuf Hfu HF.
-  { pose proof (rem_nonneg p Hi). lia. }
+  { pose proof (rem_nonneg p Hi). blia. }
   cbn [declaration_loop]. pop_tok false Hpop Hi HF. rewrite Hpop. cbn [pbind fst snd].
   set (p1 := relex p z ws cm) in *.
   destruct (ctl_same p z ws cm p1 eq_refl Hb Hp) as (Hsc1 & Hpl1).
   assert (Hi1 : linv p1) by exact Hz.
-  assert (Hr1 : rem p1 <= rem p) by (unfold rem, p1; cbn [relex pl]; rewrite (lx_len_eq _ _ Hb); lia).
+  assert (Hr1 : rem p1 <= rem p) by (unfold rem, p1; cbn [relex pl]; rewrite (lx_len_eq _ _ Hb); blia).
   assert (Hadv : t <> TError -> lpos (pl p) < lpos (pl p1)) by exact Hlt.
   assert (Hbuf1 : pbuf p1 = pbuf p) by reflexivity.
   destruct (ends_unit p1 t) eqn:E1.
   { rewrite Hbuf1. destruct (pbuf p) as [|b0 after] eqn:Eb; [congruence|].
     assert (Herrcase : exists g p', parse_declaration_error F (set_err p1 true) t d = POk (g, p') /\ outcomeS p g p').
-    { apply decl_error_outcome; try assumption. lia. }
+    { apply decl_error_outcome; try assumption. blia. }
     destruct (drop_ws after) as [|c vals]; [exact Herrcase|].
     destruct (is_t (fst c) TColon); [|exact Herrcase].
     do 2 eexists. split; [reflexivity|]. apply outcome_plain.
@@ -569,7 +594,7 @@ Proof.
     right; right; left. split; [reflexivity|]. split; [reflexivity|]. cbn [push_st set_st set_tok pst pl relex].
     split; [reflexivity|]. left. apply Hlt. exact Hne. }
   destruct (closes t && (plevel p1 =? 0)) eqn:E3.
-  { apply decl_error_outcome; try assumption. lia. }
+  { apply decl_error_outcome; try assumption. blia. }
   assert (Hlast : exists x, (match rev (pbuf (adjust_level p1 t)) with x :: _ => Some x | [] => None end) = Some x).
   { assert (Hb' : pbuf (adjust_level p1 t) = pbuf p).
     { unfold adjust_level. destruct (opens t); [reflexivity|]. destruct (closes t); reflexivity. }
@@ -584,8 +609,8 @@ Proof.
   destruct (ctl_same p z ws cm p2 Hc2 Hb Hp) as (Hsc2 & Hpl2).
   assert (Hi2 : linv p2) by (unfold linv; rewrite Hpl2; exact Hz).
   assert (Hr2 : rem p2 < rem p).
-  { unfold rem. rewrite Hpl2. rewrite (lx_len_eq _ _ Hb). specialize (Hlt Hne). lia. }
-  destruct (IH F p2 Hi2 Hbuf2 ltac:(lia) ltac:(lia)) as (g & p' & Hl & Ho).
+  { unfold rem. rewrite Hpl2. rewrite (lx_len_eq _ _ Hb). specialize (Hlt Hne). blia. }
+  destruct (IH F p2 Hi2 Hbuf2 ltac:(blia) ltac:(blia)) as (g & p' & Hl & Ho).
   exists g, p'. split; [exact Hl|]. eapply outcome_pre; eassumption.
 Qed.
 
@@ -596,7 +621,7 @@ Proof.
   destruct (declaration_loop_spec F F (set_buf p [(ptt p, pdata p)])) as (g & p' & Hl & Ho);
     [exact Hi|discriminate|exact HF|exact HF|].
   exists g, p'. split; [exact Hl|]. eapply outcome_pre; [|exact Ho].
-  unfold same_ctl. cbn [set_buf pst prevend isstyle perr pl ptt]. repeat split; auto; lia.
+  unfold same_ctl. cbn [set_buf pst prevend isstyle perr pl ptt]. repeat split; auto; blia.
 Qed.
 
 (* --- parseCustomProperty ---------------------------------------------------------------------------------------------- *)
@@ -604,7 +629,7 @@ Lemma custom_loop_spec : forall fuel p val, linv p -> rem p < Z.of_nat fuel ->
   exists g p', custom_loop fuel p val = POk (g, p') /\ outcomeS p g p'.
 Proof.
   induction fuel as [|fuel IH]; intros p val Hi Hfu.
-  { pose proof (rem_nonneg p Hi). lia. }
+  { pose proof (rem_nonneg p Hi). blia. }
   cbn [custom_loop].
   destruct (lex_next_spec p Hi) as (t & d & z & Hn & Hz & Hb & Hp & Hc). rewrite Hn. cbn [pbind fst snd].
   set (p1 := set_pl p z).
@@ -633,7 +658,7 @@ Proof.
   subst p1. cbn [set_pl pl pst prevend isstyle perr ptt] in *.
   assert (Hi2 : linv p2) by (unfold linv; rewrite Hpl2; exact Hz).
   assert (Hr2 : rem p2 < Z.of_nat fuel).
-  { unfold rem in *. rewrite Hpl2. rewrite (lx_len_eq _ _ Hb). specialize (Hadv Hne). lia. }
+  { unfold rem in *. rewrite Hpl2. rewrite (lx_len_eq _ _ Hb). specialize (Hadv Hne). blia. }
   destruct (IH p2 (val ++ d) Hi2 Hr2) as (g & p' & Hl & Ho).
   exists g, p'. split; [exact Hl|]. eapply outcome_pre; [|exact Ho].
   unfold same_ctl. rewrite Hpl2, Hst2, Hpe2, Hsty2, Her2, Htt2. repeat split; auto.
@@ -658,7 +683,7 @@ Proof.
     + right. reflexivity.
     + reflexivity.
   - destruct (custom_loop_spec F p1 [] Hz) as (g & p' & Hl & Ho).
-    + unfold rem, p1. cbn [relex pl]. rewrite (lx_len_eq _ _ Hb). unfold rem in HF0. cbn [set_buf pl] in *. lia.
+    + unfold rem, p1. cbn [relex pl]. rewrite (lx_len_eq _ _ Hb). unfold rem in HF0. cbn [set_buf pl] in *. blia.
     + exists g, p'. split; [exact Hl|]. eapply outcome_pre; eassumption.
 Qed.
 
@@ -674,12 +699,12 @@ Definition fr2 (p q : parser) : Prop :=
   lbuf (pl q) = lbuf (pl p) /\ lpos (pl p) <= lpos (pl q).
 
 Lemma fr2_refl p : linv p -> fr2 p p.
-Proof. intros H. unfold fr2. split; [exact H|]. repeat split; try reflexivity; lia. Qed.
+Proof. intros H. unfold fr2. split; [exact H|]. repeat split; try reflexivity; blia. Qed.
 
 Lemma fr2_trans p q r : fr2 p q -> fr2 q r -> fr2 p r.
 Proof.
   intros (_ & H1 & H2 & H3 & H4 & H5 & H6 & H7) (Hi & G1 & G2 & G3 & G4 & G5 & G6 & G7).
-  unfold fr2. split; [exact Hi|]. repeat split; try congruence; lia.
+  unfold fr2. split; [exact Hi|]. repeat split; try congruence; blia.
 Qed.
 
 (* where the current token of q comes from: it is still p's, or it was popped after a comment / semicolons *)
@@ -715,7 +740,7 @@ Lemma skip_semicolons_spec : forall fuel F p, linv p -> (rem p < Z.of_nat fuel \
 Proof.
   induction fuel as [|fuel IH]; intros F p Hi Hfu HF; rewrite skip_semicolons_eq.
   - destruct (is_t (ptt p) TSemicolon) eqn:E.
-    + apply is_t_eq in E. destruct Hfu as [Hfu|Hfu]; [pose proof (rem_nonneg p Hi); lia|congruence].
+    + apply is_t_eq in E. destruct Hfu as [Hfu|Hfu]; [pose proof (rem_nonneg p Hi); blia|congruence].
     + apply is_t_neq in E. exists p. split; [reflexivity|]. split; [apply fr2_refl; exact Hi|]. split; [exact E|left; reflexivity].
   - destruct (is_t (ptt p) TSemicolon) eqn:E.
     + apply is_t_eq in E.
@@ -727,14 +752,14 @@ Proof.
       destruct (IH F q Hiq) as (p' & Hl & Hf' & Hns & Hc).
       * destruct (ttype_eq_dec t TError) as [->|Hne]; [right; subst q; cbn; discriminate|left].
         unfold rem. rewrite (lx_len_eq _ _ Hlb). subst q. cbn [set_tok relex pl] in *. specialize (Hlt Hne).
-        destruct Hfu as [Hfu|Hfu]; [unfold rem in Hfu; lia|congruence].
+        destruct Hfu as [Hfu|Hfu]; [unfold rem in Hfu; blia|congruence].
       * unfold rem. rewrite (lx_len_eq _ _ Hlb). subst q. cbn [set_tok relex pl] in *.
-        destruct Hf2 as (_ & _ & _ & _ & _ & _ & _ & Hpos). cbn [set_tok relex pl] in Hpos. unfold rem in HF. lia.
+        destruct Hf2 as (_ & _ & _ & _ & _ & _ & _ & Hpos). cbn [set_tok relex pl] in Hpos. unfold rem in HF. blia.
       * exists p'. split; [exact Hl|]. split; [eapply fr2_trans; eassumption|]. split; [exact Hns|]. right.
         split; [exact E|]. destruct Hc as [->|(_ & Hfact' & Hnc' & Hlt')].
         -- subst q. cbn [set_tok relex pl ptt pdata]. split; [exact Hfact|]. split; [exact Hnc|exact Hlt].
         -- split; [exact Hfact'|]. split; [exact Hnc'|]. intros Hne. specialize (Hlt' Hne).
-           destruct Hf2 as (_ & _ & _ & _ & _ & _ & _ & Hpos). lia.
+           destruct Hf2 as (_ & _ & _ & _ & _ & _ & _ & Hpos). blia.
     + apply is_t_neq in E. exists p. split; [reflexivity|]. split; [apply fr2_refl; exact Hi|]. split; [exact E|left; reflexivity].
 Qed.
 
@@ -742,7 +767,7 @@ Lemma fr2_frame p q : fr2 p q -> frame p q.
 Proof. intros (Hi & _ & _ & Hs & _ & _ & Hb & Hp). unfold frame. auto. Qed.
 
 Lemma fr2_rem p q : fr2 p q -> rem q <= rem p.
-Proof. intros (_ & _ & _ & _ & _ & _ & Hb & Hp). unfold rem. rewrite (lx_len_eq _ _ Hb). lia. Qed.
+Proof. intros (_ & _ & _ & _ & _ & _ & Hb & Hp). unfold rem. rewrite (lx_len_eq _ _ Hb). blia. Qed.
 
 Lemma fr2_same_ctl p q : fr2 p q -> (ptt q = TLeftBrace -> ptt p = TLeftBrace \/ lpos (pl p) < lpos (pl q)) -> same_ctl p q.
 Proof. intros (_ & H1 & H2 & H3 & H4 & _ & H6 & H7) Hlb. unfold same_ctl. repeat split; assumption. Qed.
@@ -757,20 +782,20 @@ Proof.
                            then r <-- pop_token F false p;; POk (set_tok (snd r) (fst (fst r)) (snd (fst r)))
                            else POk p) = POk q1 /\ fr2 p q1 /\ prov p q1).
   { destruct (is_t (ptt p) TComment) eqn:E.
-    - apply is_t_eq in E. destruct (fr2_pop F p Hi ltac:(lia)) as (t & d & z & ws & cm & Hpop & Hf2 & _ & Hfact & Hnc & Hlt).
+    - apply is_t_eq in E. destruct (fr2_pop F p Hi ltac:(blia)) as (t & d & z & ws & cm & Hpop & Hf2 & _ & Hfact & Hnc & Hlt).
       rewrite Hpop. cbn [pbind fst snd]. eexists. split; [reflexivity|]. split; [exact Hf2|].
       right. cbn [set_tok relex pl ptt pdata]. auto.
     - exists p. split; [reflexivity|]. split; [apply fr2_refl; exact Hi|]. left. auto. }
   destruct HA as (q1 & -> & Hf1 & Hpv1). cbn [pbind].
   (* semicolons *)
   pose proof (fr2_rem _ _ Hf1) as Hr1.
-  destruct (skip_semicolons_spec F F q1 ltac:(apply Hf1) ltac:(left; lia) ltac:(lia)) as (q2 & -> & Hf12 & Hns2 & Hc2).
+  destruct (skip_semicolons_spec F F q1 ltac:(apply Hf1) ltac:(left; blia) ltac:(blia)) as (q2 & -> & Hf12 & Hns2 & Hc2).
   cbn [pbind].
   pose proof (fr2_trans _ _ _ Hf1 Hf12) as Hf2. pose proof (fr2_rem _ _ Hf2) as Hr2.
   assert (Hpv2 : prov p q2).
   { destruct Hc2 as [->|(Hsemi & Hfact & Hnc & Hlt)]; [exact Hpv1|]. right.
     split; [exact Hfact|]. split; [exact Hnc|]. split.
-    - intros Hne. specialize (Hlt Hne). destruct Hf1 as (_ & _ & _ & _ & _ & _ & _ & Hp1). lia.
+    - intros Hne. specialize (Hlt Hne). destruct Hf1 as (_ & _ & _ & _ & _ & _ & _ & Hp1). blia.
     - destruct Hpv1 as [(Ht & _)|(_ & _ & _ & Hor)]; [right; congruence|exact Hor]. }
   assert (Htk2 : tokd (ptt q2) (pdata q2)).
   { destruct Hpv2 as [(Ht & Hd & _)|(Hfact & _)]; [rewrite Ht, Hd; exact Htk|eapply tok_fact_tokd; exact Hfact]. }
@@ -793,13 +818,13 @@ Proof.
       - intros Hx. destruct Hpv2 as [(Ht & _)|(_ & _ & Hl & _)]; [left; congruence|right; apply Hl; rewrite Hx; discriminate].
       - intros Hx. destruct Hpv2 as [(Ht & _ & Hpos)|(Hfact & _ & _ & Hor)].
         + assert (ptt p = TError) by congruence. split; [|auto]. specialize (Herr0 H). unfold rem in Herr0.
-          destruct Hf2 as (_ & _ & _ & _ & _ & _ & Hb & _). rewrite (lx_len_eq _ _ Hb). lia.
+          destruct Hf2 as (_ & _ & _ & _ & _ & _ & Hb & _). rewrite (lx_len_eq _ _ Hb). blia.
         + split; [|right; exact Hor]. destruct Hfact as [(_ & Hr & _)|(He & _)]; [exact Hr|rewrite Hx in He; discriminate]. }
     destruct (is_t (ptt q2) TDelim) eqn:Ed; [|exists q2; split; [reflexivity|exact Hsame]].
     apply is_t_eq in Ed. destruct Htk2 as (_ & Hd1). specialize (Hd1 Ed).
-    destruct (peekz_in_range (pdata q2) 0) as (c0 & ->); [lia|]. cbn [of_opt pbind].
+    destruct (peekz_in_range (pdata q2) 0) as (c0 & ->); [blia|]. cbn [of_opt pbind].
     destruct (c0 =? 42); [|exists q2; split; [reflexivity|exact Hsame]].
-    destruct (fr2_pop F q2 Hi2 ltac:(lia)) as (t & d & z & ws & cm & Hpop & Hfa & Hfb & Hfact & Hnc & Hlt).
+    destruct (fr2_pop F q2 Hi2 ltac:(blia)) as (t & d & z & ws & cm & Hpop & Hfa & Hfb & Hfact & Hnc & Hlt).
     rewrite Hpop. cbn [pbind fst snd]. cbv zeta.
     destruct (is_t t TError) eqn:Et; cbn [negb].
     - (* the '*' stays a delimiter *)
@@ -810,8 +835,8 @@ Proof.
       assert (Hfa' : fr2 q2 (set_tok (relex q2 z ws cm) t (pdata (relex q2 z ws cm) ++ d))) by exact Hfa.
       split; [eapply fr2_trans; eassumption|]. cbn [set_tok relex ptt pdata pl].
       destruct (tok_fact_nonerr _ _ _ Hfact Et) as (Hl1 & Hl2).
-      split; [split; intros Hx; rewrite len_app; pose proof (len_nonneg (pdata q2)); [specialize (Hl2 Hx)|]; lia|].
-      split; [intros _; right; specialize (Hlt Et); destruct Hf2 as (_ & _ & _ & _ & _ & _ & _ & Hp2); lia|].
+      split; [split; intros Hx; rewrite len_app; pose proof (len_nonneg (pdata q2)); [specialize (Hl2 Hx)|]; blia|].
+      split; [intros _; right; specialize (Hlt Et); destruct Hf2 as (_ & _ & _ & _ & _ & _ & _ & Hp2); blia|].
       congruence. }
   destruct HC as (q3 & HC & Hf3 & Htk3 & Hlb3 & Herr3). cbv zeta in HC. rewrite HC. clear HC. cbn [pbind]. cbv zeta.
   pose proof (fr2_rem _ _ Hf3) as Hr3. assert (Hi3 : linv q3) by apply Hf3.
@@ -824,13 +849,13 @@ Proof.
     left. split; [exact Hst|]. split; [reflexivity|]. intros _. right. apply Herr3. exact E1. }
   destruct (is_t (ptt q3) TAtKeyword) eqn:E2.
   { apply is_t_eq in E2. destruct Htk3 as (Ha & _).
-    destruct (parse_at_rule_spec F q3 Hi3 ltac:(lia) (Ha E2)) as (g & p' & Hl & Ho).
+    destruct (parse_at_rule_spec F q3 Hi3 ltac:(blia) (Ha E2)) as (g & p' & Hl & Ho).
     exists g, p'. split; [exact Hl|]. eapply outcome_pre; [exact Hsc3|]. apply outcomeS_any. exact Ho. }
   destruct (is_t (ptt q3) TIdent || is_t (ptt q3) TDelim) eqn:E3.
-  { destruct (parse_declaration_spec F q3 Hi3 ltac:(lia)) as (g & p' & Hl & Ho).
+  { destruct (parse_declaration_spec F q3 Hi3 ltac:(blia)) as (g & p' & Hl & Ho).
     exists g, p'. split; [exact Hl|]. eapply outcome_pre; [exact Hsc3|]. apply outcomeS_any. exact Ho. }
   destruct (is_t (ptt q3) TCustomPropertyName) eqn:E4.
-  { destruct (parse_custom_property_spec F q3 Hi3 ltac:(lia)) as (g & p' & Hl & Ho).
+  { destruct (parse_custom_property_spec F q3 Hi3 ltac:(blia)) as (g & p' & Hl & Ho).
     exists g, p'. split; [exact Hl|]. eapply outcome_pre; [exact Hsc3|]. apply outcomeS_any. exact Ho. }
   (* a parse error *)
   set (q4 := set_err (set_buf q3 []) true).
@@ -848,14 +873,14 @@ Proof.
   apply is_t_neq in E5. unfold parse_declaration_error.
   destruct (decl_error_loop_spec F F (set_tok q4 (ptt q3) (pdata q4)) (ptt q3) (pdata q4)) as (p' & Hl & (Hi' & Hb' & Hp' & Hs') & Hst' & Her' & Hpe').
   - exact Hi3.
-  - left. unfold rem in *. cbn [set_tok pl]. rewrite Hpl4. lia.
-  - unfold rem in *. cbn [set_tok pl]. rewrite Hpl4. lia.
+  - left. unfold rem in *. cbn [set_tok pl]. rewrite Hpl4. blia.
+  - unfold rem in *. cbn [set_tok pl]. rewrite Hpl4. blia.
   - exists GError, p'. split; [exact Hl|]. cbn [set_tok pl pst perr isstyle] in *. rewrite Hpl4 in *.
     apply outcome_plain.
-    + unfold frame. split; [exact Hi'|]. split; [congruence|]. split; [lia|congruence].
+    + unfold frame. split; [exact Hi'|]. split; [congruence|]. split; [blia|congruence].
     + congruence.
     + reflexivity.
-    + intros H. right. destruct (Hpe' H) as [Hx|Hx]; [congruence|lia].
+    + intros H. right. destruct (Hpe' H) as [Hx|Hx]; [congruence|blia].
     + right. congruence.
     + intros _. congruence.
 Qed.
@@ -877,11 +902,11 @@ Proof.
     specialize (Herr0 He). unfold rem in Herr0. exact Herr0. }
   destruct (is_t (ptt p) TCDO || is_t (ptt p) TCDC). { do 2 eexists. split; [reflexivity|]. apply Hplain; [reflexivity|discriminate]. }
   destruct (is_t (ptt p) TAtKeyword) eqn:E1.
-  { apply is_t_eq in E1. destruct (parse_at_rule_spec F p Hi ltac:(lia) (Ha E1)) as (g & p' & Hl & Ho).
+  { apply is_t_eq in E1. destruct (parse_at_rule_spec F p Hi ltac:(blia) (Ha E1)) as (g & p' & Hl & Ho).
     exists g, p'. split; [exact Hl|]. apply outcomeS_any. exact Ho. }
   destruct (is_t (ptt p) TComment). { do 2 eexists. split; [reflexivity|]. apply Hplain; [reflexivity|discriminate]. }
   destruct (is_t (ptt p) TCustomPropertyName).
-  { destruct (parse_custom_property_spec F p Hi ltac:(lia)) as (g & p' & Hl & Ho).
+  { destruct (parse_custom_property_spec F p Hi ltac:(blia)) as (g & p' & Hl & Ho).
     exists g, p'. split; [exact Hl|]. apply outcomeS_any. exact Ho. }
   destruct (is_t (ptt p) TError) eqn:E2.
   { apply is_t_eq in E2. do 2 eexists. split; [reflexivity|]. apply Hplain; [reflexivity|auto]. }
@@ -895,7 +920,7 @@ Lemma outcome_pop p s rest g : linv p -> pst p = s :: rest ->
   forall kw, outcomeS p g (set_keepws (set_st p rest) kw).
 Proof.
   intros Hi Hs Hg kw.
-  split; [apply (frame_of p _ (pl p)); [reflexivity|exact Hi|reflexivity|lia|reflexivity]|].
+  split; [apply (frame_of p _ (pl p)); [reflexivity|exact Hi|reflexivity|blia|reflexivity]|].
   split; [intros H; left; exact H|]. split; [left; reflexivity|].
   destruct Hg as [(-> & Hk)|(-> & ->)].
   - right; right; right; left. split; [reflexivity|]. split; [reflexivity|]. exists s. cbn [set_keepws set_st pst]. auto.
@@ -913,7 +938,7 @@ Proof.
   { unfold pop_st. rewrite Hs. cbn [pbind]. do 2 eexists. split; [reflexivity|].
     rewrite <- (set_keepws_id (set_st p rest)). apply (outcome_pop p SAtRuleRuleList rest); auto. }
   destruct (is_t (ptt p) TAtKeyword) eqn:E1.
-  { apply is_t_eq in E1. apply parse_at_rule_spec; [exact Hi|lia|exact (Ha E1)]. }
+  { apply is_t_eq in E1. apply parse_at_rule_spec; [exact Hi|blia|exact (Ha E1)]. }
   apply parse_qualified_rule_spec; assumption.
 Qed.
 
@@ -923,11 +948,11 @@ Proof.
   intros Hi Hs. unfold parse_at_rule_unknown.
   set (p0 := set_keepws p true).
   destruct ((is_t (ptt p0) TRightBrace && (plevel p0 =? 0)) || is_t (ptt p0) TError).
-  - unfold pop_st. cbn [set_keepws pst] in *. rewrite Hs. cbn [pbind]. do 2 eexists. split; [reflexivity|].
+  - unfold pop_st. change (pst p0) with (pst p). rewrite Hs. cbn [pbind]. do 2 eexists. split; [reflexivity|].
     assert (E : set_keepws (set_st p0 rest) false = set_keepws (set_st p rest) false) by reflexivity. rewrite E.
     apply (outcome_pop p SAtRuleUnknown rest); auto.
   - do 2 eexists. split; [reflexivity|]. apply outcome_plain.
-    + apply (frame_of p _ (pl p)); [|exact Hi|reflexivity|lia|].
+    + apply (frame_of p _ (pl p)); [|exact Hi|reflexivity|blia|].
       * unfold adjust_level. destruct (opens _); [reflexivity|]. destruct (closes _); reflexivity.
       * unfold adjust_level. destruct (opens _); [reflexivity|]. destruct (closes _); reflexivity.
     + unfold adjust_level. destruct (opens _); [reflexivity|]. destruct (closes _); reflexivity.
@@ -949,7 +974,7 @@ Lemma decl_list_state_spec F p s rest gend :
     outcomeT (fun _ => ptt p = TComment) p g p'.
 Proof.
   intros (Hi & Htk & Herr0) HF Hs Hg.
-  destruct (skip_semicolons_spec F F p Hi ltac:(left; lia) ltac:(lia)) as (q & -> & Hf & Hns & Hc). cbn [pbind]. cbv zeta.
+  destruct (skip_semicolons_spec F F p Hi ltac:(left; blia) ltac:(blia)) as (q & -> & Hf & Hns & Hc). cbn [pbind]. cbv zeta.
   assert (Hlb : ptt q = TLeftBrace -> ptt p = TLeftBrace \/ lpos (pl p) < lpos (pl q)).
   { intros Hx. destruct Hc as [->|(_ & _ & _ & Hl)]; [left; exact Hx|right; apply Hl; rewrite Hx; discriminate]. }
   pose proof (fr2_same_ctl _ _ Hf Hlb) as Hsc. pose proof (fr2_rem _ _ Hf) as Hr.
@@ -957,14 +982,14 @@ Proof.
   assert (Hsq : pst q = s :: rest) by (destruct Hf as (_ & H1 & _); congruence).
   destruct (is_t (ptt q) TRightBrace || is_t (ptt q) TError) eqn:E.
   - unfold pop_st. rewrite Hsq. cbn [pbind]. do 2 eexists. split; [reflexivity|].
-    eapply outcome_conv; [exact Hsc|intros x []|].
+    eapply (outcome_conv (fun _ => False)); [exact Hsc|intros x []|].
     rewrite <- (set_keepws_id (set_st q rest)). apply (outcome_pop q s rest); auto.
   - apply orb_false_iff in E. destruct E as [E1 E2]. apply is_t_neq in E1. apply is_t_neq in E2.
     assert (Heq : entry_ok q).
     { split; [exact Hiq|]. split; [|intros Hx; congruence].
       destruct Hc as [->|(_ & Hfact & _)]; [exact Htk|eapply tok_fact_tokd; exact Hfact]. }
     destruct Heq as (_ & Htkq & Herrq).
-    destruct (parse_declaration_list_spec F q Hiq ltac:(lia) Htkq Herrq) as (g & p' & Hl & Ho).
+    destruct (parse_declaration_list_spec F q Hiq ltac:(blia) Htkq Herrq) as (g & p' & Hl & Ho).
     exists g, p'. split; [exact Hl|]. eapply outcome_conv; [exact Hsc| |exact Ho].
     intros x (_ & [Hx|[Hx|Hx]]); [congruence| |congruence].
     destruct Hc as [->|(_ & _ & Hnc & _)]; [exact Hx|congruence].
@@ -1020,17 +1045,23 @@ Lemma eof_dispatch F p s rest : ptt p = TError -> pst p = s :: rest ->
   | SQualifiedRuleDeclarationList => parse_qualified_rule_declaration_list F p = POk (GEndRuleset, set_st p rest)
   end.
 Proof.
-  intros Ht Hs. destruct s.
-  - unfold parse_stylesheet. rewrite Ht. reflexivity.
-  - unfold parse_declaration_list. rewrite Ht. cbn [is_t tt_eqb tt_code Z.eqb pbind].
-    rewrite skip_semicolons_none by (rewrite Ht; discriminate). cbn [pbind]. rewrite Ht. reflexivity.
-  - unfold parse_at_rule_rule_list, pop_st. rewrite Ht, Hs. reflexivity.
-  - unfold parse_at_rule_declaration_list, pop_st. rewrite skip_semicolons_none by (rewrite Ht; discriminate).
-    cbn [pbind]. rewrite Ht, Hs. reflexivity.
-  - unfold parse_at_rule_unknown, pop_st. cbn [set_keepws ptt pst plevel]. rewrite Ht, Hs. reflexivity.
-  - unfold parse_qualified_rule_declaration_list, pop_st. rewrite skip_semicolons_none by (rewrite Ht; discriminate).
-    cbn [pbind]. rewrite Ht, Hs. reflexivity.
+  intros Ht Hs.
+  assert (Hev : forall x, is_t (ptt p) x = is_t TError x) by (intros x; rewrite Ht; reflexivity).
+  assert (Hne : ptt p <> TSemicolon) by (rewrite Ht; discriminate).
+  destruct s; unfold parse_stylesheet, parse_declaration_list, parse_at_rule_rule_list, parse_at_rule_declaration_list,
+    parse_at_rule_unknown, parse_qualified_rule_declaration_list, pop_st;
+    cbn [set_keepws ptt pst plevel];
+    rewrite ?(skip_semicolons_none F p Hne); cbn [pbind]; rewrite ?Hev, ?Hs;
+    repeat (match goal with |- context [is_t TError ?x] =>
+              let v := eval vm_compute in (is_t TError x) in change (is_t TError x) with v end);
+    cbv beta iota; cbn [orb andb pbind];
+    rewrite ?(skip_semicolons_none F p Hne); cbn [pbind]; rewrite ?Hev;
+    repeat (match goal with |- context [is_t TError ?x] =>
+              let v := eval vm_compute in (is_t TError x) in change (is_t TError x) with v end);
+    cbv beta iota; cbn [orb andb pbind]; try reflexivity.
+  rewrite Hev. reflexivity.
 Qed.
+
 
 Definition next_post (p : parser) (g : gtype) (p' : parser) : Prop :=
   pinv p' /\ lbuf (pl p') = lbuf (pl p) /\ isstyle p' = isstyle p /\ lpos (pl p) <= lpos (pl p') /\
@@ -1051,42 +1082,41 @@ Proof.
   unfold next_post, pinv, phi, rem. rewrite HL.
   destruct Hc as [(Hs & Hg & He)|[(Hg & He & s & Hs & Hk & Hl)|[(Hg & He & Hs & Hl)|[(Hg & He & s & Hs & Hk)|[(Hg & He & Hs)|(Hg & He & s & Hs & Hn)]]]]].
   - (* no stack change *)
-    split; [split; [exact Hi'|congruence]|]. split; [congruence|]. split; [congruence|]. split; [lia|]. split.
-    + left. rewrite Hs, Hst. destruct (prevend p') eqn:E; [specialize (Hpe'' eq_refl)|]; destruct Hpath as [(-> & _)|(-> & Hlt)]; lia.
+    split; [split; [exact Hi'|congruence]|]. split; [congruence|]. split; [congruence|]. split; [blia|]. split.
+    + left. rewrite Hs, Hst. destruct (prevend p') eqn:E; [specialize (Hpe'' eq_refl)|]; destruct Hpath as [(-> & _)|(-> & Hlt)]; blia.
     + intros Hperr. rewrite Hs, Hst.
       destruct g; cbn [stack_rel]; try reflexivity; try discriminate Hg.
       destruct (He eq_refl) as [Hx|(_ & Hlen)]; [congruence|]. auto.
   - (* BeginAtRule *)
     assert (Hok' : stack_ok (pst p') = true) by (rewrite Hs, Hst; apply stack_ok_push; [exact Hok|apply at_kind_pushed; exact Hk]).
-    split; [split; assumption|]. split; [congruence|]. split; [congruence|]. split; [lia|]. split.
-    + left. rewrite Hs, Hst, len_cons. destruct (prevend p') eqn:E; [specialize (Hpe'' eq_refl)|]; destruct Hpath as [(-> & _)|(-> & Hlt)]; lia.
+    split; [split; assumption|]. split; [congruence|]. split; [congruence|]. split; [blia|]. split.
+    + left. rewrite Hs, Hst, len_cons. destruct (prevend p') eqn:E; [specialize (Hpe'' eq_refl)|]; destruct Hpath as [(-> & _)|(-> & Hlt)]; blia.
     + intros _. subst g. cbn [stack_rel]. exists s. split; [congruence|exact Hk].
   - (* BeginRuleset *)
     assert (Hok' : stack_ok (pst p') = true) by (rewrite Hs, Hst; apply stack_ok_push; [exact Hok|reflexivity]).
-    split; [split; assumption|]. split; [congruence|]. split; [congruence|]. split; [lia|]. split.
+    split; [split; assumption|]. split; [congruence|]. split; [congruence|]. split; [blia|]. split.
     + left. rewrite Hs, Hst, len_cons.
       assert (Hadv : lpos (pl p) < lpos (pl p')).
-      { destruct Hl as [Hl|Hl]; [lia|]. destruct Hpath as [(_ & Hx)|(_ & Hlt)]; [congruence|lia]. }
-      destruct (prevend p') eqn:E; [specialize (Hpe'' eq_refl)|]; destruct Hpath as [(-> & Hx)|(-> & Hlt)]; try lia.
-      destruct Hl as [Hl|Hl]; [lia|congruence].
+      { destruct Hl as [Hl|Hl]; [blia|]. destruct Hpath as [(_ & Hx)|(_ & Hlt)]; [congruence|blia]. }
+      destruct (prevend p') eqn:E; [specialize (Hpe'' eq_refl)|]; destruct Hpath as [(-> & Hx)|(-> & Hlt)]; blia.
     + intros _. subst g. cbn [stack_rel]. congruence.
   - (* EndAtRule *)
     rewrite Hst in Hs. rewrite Hs in Hok.
     destruct (stack_ok_cons _ _ Hok) as [(_ & Hbk)|(Hne & _ & Hok')]; [exfalso; eapply kinds_disjoint; [exact Hbk|apply at_kind_pushed; exact Hk]|].
-    split; [split; assumption|]. split; [congruence|]. split; [congruence|]. split; [lia|]. split.
-    + left. rewrite Hs, len_cons. destruct (prevend p') eqn:E; [specialize (Hpe'' eq_refl)|]; destruct Hpath as [(-> & _)|(-> & Hlt)]; lia.
+    split; [split; assumption|]. split; [congruence|]. split; [congruence|]. split; [blia|]. split.
+    + left. rewrite Hs, len_cons. destruct (prevend p') eqn:E; [specialize (Hpe'' eq_refl)|]; destruct Hpath as [(-> & _)|(-> & Hlt)]; blia.
     + intros _. subst g. cbn [stack_rel]. exists s. auto.
   - (* EndRuleset *)
     rewrite Hst in Hs. rewrite Hs in Hok.
     destruct (stack_ok_cons _ _ Hok) as [(_ & Hbk)|(Hne & _ & Hok')]; [discriminate Hbk|].
-    split; [split; assumption|]. split; [congruence|]. split; [congruence|]. split; [lia|]. split.
-    + left. rewrite Hs, len_cons. destruct (prevend p') eqn:E; [specialize (Hpe'' eq_refl)|]; destruct Hpath as [(-> & _)|(-> & Hlt)]; lia.
+    split; [split; assumption|]. split; [congruence|]. split; [congruence|]. split; [blia|]. split.
+    + left. rewrite Hs, len_cons. destruct (prevend p') eqn:E; [specialize (Hpe'' eq_refl)|]; destruct Hpath as [(-> & _)|(-> & Hlt)]; blia.
     + intros _. subst g. cbn [stack_rel]. exact Hs.
   - (* a parse error that pops a state *)
     rewrite Hst in Hs. rewrite Hs in Hok.
     destruct (stack_ok_cons _ _ Hok) as [(Hx & _)|(Hne & _ & Hok')]; [congruence|].
-    split; [split; assumption|]. split; [congruence|]. split; [congruence|]. split; [lia|]. split.
-    + left. rewrite Hs, len_cons. destruct (prevend p') eqn:E; [specialize (Hpe'' eq_refl)|]; destruct Hpath as [(-> & _)|(-> & Hlt)]; lia.
+    split; [split; assumption|]. split; [congruence|]. split; [congruence|]. split; [blia|]. split.
+    + left. rewrite Hs, len_cons. destruct (prevend p') eqn:E; [specialize (Hpe'' eq_refl)|]; destruct Hpath as [(-> & _)|(-> & Hlt)]; blia.
     + intros Hx. congruence.
 Qed.
 
@@ -1134,9 +1164,10 @@ Proof.
   intros Hpinv. pose proof Hpinv as (Hi & Hok). unfold parse_next.
   pose proof (next_fuel_val p Hi) as HFv. set (F := next_fuel p) in *.
   destruct (pst p) as [|s rest] eqn:Hs; [discriminate Hok|].
+  cbv zeta. change (prevend (set_err p false)) with (prevend p).
   destruct (prevend p) eqn:Epe.
   - (* the pending '}' of the previous unit *)
-    cbn [set_err prevend pbind].
+    cbn [pbind].
     set (p1 := set_prevend (set_tok (set_err p false) TRightBrace [125]) false).
     assert (He1 : entry_ok p1).
     { split; [exact Hi|]. split; [split; discriminate|discriminate]. }
@@ -1147,8 +1178,7 @@ Proof.
     + change (pst p1) with (pst p). rewrite Hs. exact Hok.
     + discriminate.
     + exists g, p'. split; [exact Hl|].
-      apply (next_finish p p1); try reflexivity; try assumption; [lia|left; split; [exact Epe|reflexivity]|].
-      change (pst p1) with (pst p) in Ho. exact Ho.
+      apply (next_finish p p1); try reflexivity; try assumption. left. split; [exact Epe|reflexivity].
   - cbn [set_err prevend].
     assert (Hi0 : linv (set_err p false)) by exact Hi.
     assert (HF0 : rem (set_err p false) < Z.of_nat F) by (unfold rem in *; cbn [set_err pl]; lia).
@@ -1164,7 +1194,6 @@ Proof.
       subst t. pose proof (eof_dispatch F p1 s rest eq_refl Hs) as Hd.
       assert (Hrem1 : lx_len z - lpos z = 0) by (destruct Hfact as [(_ & Hr & _)|(He & _)]; [exact Hr|discriminate]).
       assert (HL : lx_len z = lx_len (pl p)) by (apply lx_len_eq; exact Hb).
-      rewrite Hs in Hok.
       assert (Hcommon : forall g q, pl q = z -> isstyle q = isstyle p -> perr q = false -> prevend q = false ->
                 (pst q = s :: rest /\ g = GError /\ rest = [] \/
                  pst q = rest /\ rest <> [] /\ stack_ok rest = true /\
@@ -1182,9 +1211,9 @@ Proof.
           intros _. destruct Hg as [(-> & Hk)|(-> & ->)]; cbn [stack_rel]; [exists s; auto|reflexivity]. }
       destruct (stack_ok_cons _ _ Hok) as [(Hr & Hbk)|(Hne & Hpk & Hokr)].
       * destruct s; try discriminate Hbk; rewrite Hd; do 2 eexists; (split; [reflexivity|]);
-          apply Hcommon; try reflexivity; left; auto.
+          (apply Hcommon; [reflexivity|reflexivity|reflexivity|exact Epe|left; auto]).
       * destruct s; try discriminate Hpk; rewrite Hd; do 2 eexists; (split; [reflexivity|]);
-          apply Hcommon; try reflexivity; right; (split; [reflexivity|]); (split; [exact Hne|]); (split; [exact Hokr|]); auto.
+          (apply Hcommon; [reflexivity|reflexivity|reflexivity|exact Epe|right; (split; [reflexivity|]); (split; [exact Hne|]); (split; [exact Hokr|]); auto]).
     + destruct (dispatch_spec F p1 s rest He1) as (g & p' & Hl & Ho).
       * unfold rem in *. cbn [p1 set_tok relex pl set_err] in *. rewrite (lx_len_eq _ _ Hb). cbn [set_err pl]. lia.
       * exact Hs.
@@ -1193,6 +1222,5 @@ Proof.
         destruct rest; [reflexivity|rewrite len_cons in Hlen; pose proof (len_nonneg rest); lia].
       * exists g, p'. split; [exact Hl|].
         apply (next_finish p p1); try reflexivity; try assumption.
-        -- right. split; [exact Epe|]. specialize (Hlt Et). cbn [set_err pl] in Hlt. exact Hlt.
-        -- change (pst p1) with (pst p) in Ho. exact Ho.
+        right. split; [exact Epe|]. specialize (Hlt Et). cbn [set_err pl] in Hlt. exact Hlt.
 Qed.
